@@ -6,6 +6,7 @@ mod cpsops;
 mod dump;
 mod gen;
 mod specgen;
+mod threads;
 #[cfg(feature = "pattern")]
 mod searcher;
 
@@ -343,6 +344,7 @@ fn main() {
         Some("cps") => cpsops::cmd_cps(&args[2..]),
         Some("fold") => cpsops::cmd_fold(&args[2..]),
         Some("props") => cpsops::cmd_props(&args[2..]),
+        Some("threads") => threads::cmd_threads(&args[2..]),
         #[cfg(feature = "pattern")]
         Some("searcher") => searcher::cmd_searcher(&args[2..]),
         _ => {
